@@ -377,6 +377,7 @@ func main() {
 			oneQuery(r, st, s, tb, rnd, q, i, qi)
 		}
 	})
+	bigTables(r)
 	pinned(r)
 
 	tot := 0
